@@ -183,7 +183,7 @@ PROPS = {
             "thorough": "same with Skel-thorough and the thorough grid families",
         },
         "not_decided": ["'accepted => simulates' is decided under C02/C13 for the skeletons covered there", "combinations of several rule violations at once (each rule is checked on its own)"],
-        "assumptions": COMMON_ASSUMPTIONS,
+        "assumptions": COMMON_ASSUMPTIONS + ["accepted => solves is claimed for specifications whose filters leave every period at least one admissible (restricted state, restricted choice) combination: indexing into an empty space is not modelled by the array stubs, and the real code then fails with an IndexError"],
     },
     "C02": {
         "contracts": ["C02.decisions", "lcm.argmax.argmax", "lcm.argmax.segment_argmax", "lcm.model_functions.get_utility_and_feasibility_function", "lcm.dispatchers.spacemap", "lcm.dispatchers.vmap_1d"],
@@ -226,7 +226,7 @@ PROPS = {
     "C09": {
         "contracts": ["C09.frame", "lcm.functools.get_union_of_arguments", "lcm.input_processing.create_params_template.create_params_template", "lcm.input_processing.process_model.process_model"],
         "hash_seeds": {"contracts": ["lcm.model_functions.get_utility_and_feasibility_function", "C01.period-step", "C04.key-discipline"], "seeds": [1, 2], "seeds_thorough": [1, 2, 3, 4, 5]},
-        "families": {"quick": "Skel-quick: frame conditions over get_lcm_function and repeated, interleaved solve calls with two params objects; the utility-and-feasibility and period-step contracts re-proved in processes with PYTHONHASHSEED 1 and 2 (set iteration orders)", "thorough": "Skel-thorough; PYTHONHASHSEED 1..5"},
+        "families": {"quick": "Skel-quick: frame conditions over get_lcm_function and repeated, interleaved solve calls with two params objects; the utility-and-feasibility, period-step and key-discipline contracts re-proved in processes with PYTHONHASHSEED 1 and 2 plus up to two seeds chosen so that every name set of the family is iterated in two orders; the PRNG key term of every stochastic transition and period must be the same under every hash seed", "thorough": "Skel-thorough; PYTHONHASHSEED 1..5"},
         "not_decided": ["JIT/XLA cache behaviour and bit-equality across processes (outside the model)", "stores performed inside natively executed libraries (dags, pandas) are not observed"],
         "assumptions": COMMON_ASSUMPTIONS + ["library contracts are pure functions of their arguments"],
     },
